@@ -72,7 +72,7 @@ fn generate(seed: u64, tier: Tier) -> Value {
             let kind = *r.pick(&["flip", "flip", "overwrite", "truncate", "append_garbage", "dup_record", "transplant", "garbage_len", "delete_file", "dup_file"]);
             corr.push(json!({"kind": kind, "role": *r.pick(&["wal", "wal", "live", "snap"]), "file_pick": r.below(100), "record_pick": r.below(1000), "in_body": r.chance(1, 2),
                              "off_pick": r.below(100_000), "bit": r.below(8), "len": r.range(1, 40), "fill": r.below(256),
-                             "glen": *r.pick(&[0u64, 1, 0xFFFF_FFFF, 0x7FFF_FFFF, 0x0100_0000, 65_536]), "at_end": r.chance(1, 2)}));
+                             "glen": *r.pick(&[0u64, 1, 0xFFFF_FFFF, 0x7FFF_FFFF, 0x0100_0000, 65_536, 5_000, 0x0010_0000, 0x0040_0000, 0x0090_0000, 0x009F_FFFF, 0x00A0_0001]), "at_end": r.chance(1, 2)}));
         }
     }
     json!({"property": "C07", "seed": seed, "precise": precise, "keys": keys, "rot": rot, "ops": ops, "ops_b": ops_b, "corr": corr,
@@ -441,7 +441,7 @@ fn execute(sc: &Value) -> RunReport {
         ev!("reopen files={} bytes={total} peak_alloc={} biggest={}", files.len(), peak / 1024 * 1024, biggest / 1024 * 1024);
         // slack constant: decoders pre-allocate up to a fixed cap for a declared element count
         // (serde's cautious size hint: 1 MiB worth of elements, ~1.6 MB as a hash table)
-        if peak > 16 * total + (8 << 20) {
+        if peak > 16 * total + (3 << 20) {
             ctx.violate("C07.memory.not_proportional_to_files", "", format!("recovery of {total} bytes of files allocated a peak of {peak} bytes (largest single request {biggest})"));
         }
         let m = match reopened {
